@@ -703,7 +703,7 @@ class Interp:
             return getattr(v, name)
         if isinstance(v, Obj) and name == "__class__" and v.cls is not None:
             return v.cls
-        if type(v).__name__ == "Pattern" and name in ("match", "search"):
+        if type(v).__name__ == "Pattern" and name in ("match", "search", "fullmatch"):
             return ("remethod", name, v.pattern)
         if isinstance(v, (str, SStr)) and name in ("endswith", "startswith", "split", "format"):
             return ("strmethod", name, v)
